@@ -419,7 +419,7 @@ mod sig {
             let st = StackT { sp: stack.as_mut_ptr(), flags: 0, size: stack.len() };
             sigaltstack(&st, std::ptr::null_mut());
             let act = SigAction { handler: on_signal as usize, mask: [0; 16], flags: SA_SIGINFO | SA_ONSTACK, restorer: 0 };
-            for s in [11, 7, 4, 8] {
+            for s in [11, 7, 4, 8, 6] {
                 sigaction(s, &act, std::ptr::null_mut());
             }
         }
